@@ -80,6 +80,9 @@ func c11List(tier string) []c11Case {
 			out = append(out, c11Case{Mode: "undecodable-response-then-more", Kind: []string{"bidi", "server"}[i%2], M: m, GMP: []int{1, 4, 16}[(i+1)%3]})
 		}
 	}
+	for k := 0; k < 6*reps; k++ {
+		out = append(out, c11Case{Mode: "websocket-cancel-mid-write", Kind: "ws"})
+	}
 	return out
 }
 
@@ -276,6 +279,11 @@ func c11Scripted(tier string, seed int64, idx int, c c11Case, res *core.Result) 
 func c11Run(tier string, seed int64, idx int) *core.Result {
 	list := c11List(tier)
 	c := list[idx]
+	if c.Mode == "websocket-cancel-mid-write" {
+		res := &core.Result{Verdict: core.Held, Sample: c, Sig: fmt.Sprintf("%+v/%d", c, idx), NonTrivial: true}
+		c11WSCancel(tier, seed, idx, res)
+		return res
+	}
 	if c.Mode == "cancel-while-send-blocked-with-unread" || c.Mode == "undecodable-response-then-more" {
 		res := &core.Result{Verdict: core.Held, Sample: c, Sig: fmt.Sprintf("%+v/%d", c, idx), NonTrivial: true}
 		c11Scripted(tier, seed, idx, c, res)
@@ -522,11 +530,11 @@ func init() {
 	core.Register(&core.Prop{
 		ID:    "C11",
 		Level: "exploration",
-		Rule:  "cases = {handler returns after k of n client messages, all 0<=k<n<=8 (server-stream n<=3)} + {caller cancels with m in 0..8 responses unread} x stream kind x other RPCs in flight {quick 0,2; thorough 0..4} x hook plan {none, rendezvous parking the server's stream unregistration until nothing else moves; thorough adds jitter and parking the client stream's teardown}; plus scripted-server families (the caller is cancelled while its send is blocked by transport back-pressure and m in 3..6 responses are unread; the first response cannot be decoded, the caller stops receiving without cancelling, and m-1 more responses follow); every case ends with a no-deadline probe and a manual-deadline probe. All cases are distinct parameter tuples and all are non-trivial (each abandons a stream).",
+		Rule:  "cases = {handler returns after k of n client messages, all 0<=k<n<=8 (server-stream n<=3)} + {caller cancels with m in 0..8 responses unread} x stream kind x other RPCs in flight {quick 0,2; thorough 0..4} x hook plan {none, rendezvous parking the server's stream unregistration until nothing else moves; thorough adds jitter and parking the client stream's teardown}; plus scripted-server families (the caller is cancelled while its send is blocked by transport back-pressure and m in 3..6 responses are unread; the first response cannot be decoded, the caller stops receiving without cancelling, and m-1 more responses follow); and a family over the shipped websocket transport on loopback sockets in which a caller gives up (cancel / deadline / stream send) while its 64 KiB frame is half-way onto the socket, with 2 calls in flight (wall-clock bounds there are inconclusive, only failed calls are violations); every case ends with a no-deadline probe and a manual-deadline probe. All cases are distinct parameter tuples and all are non-trivial (each abandons a stream).",
 		Plan:  func(tier string, seed int64) int { return len(c11List(tier)) },
 		Run:   c11Run,
 		Assumptions: []string{"final state = every goroutine durably blocked in a consistent stop-the-world snapshot (channel-only scenario, manual deadlines, no real timers)"},
-		RequiredStats: func(string) []string { return []string{"probes_completed", "rendezvous_fired", "hook:srv.beforeStream", "scripted_abandonments"} },
+		RequiredStats: func(string) []string { return []string{"probes_completed", "rendezvous_fired", "hook:srv.beforeStream", "scripted_abandonments", "ws_cancel_mid_write_cases"} },
 		Exhaustive: func(string) bool { return false },
 	})
 }
